@@ -110,6 +110,23 @@ def run(P, C):
                     b_, idx_ = peel(d["init"])
                     if local_id(b_) == perm_param and len(idx_) == 1:
                         jdef[d["id"]] = local_id(idx_[0])
+    # ... or the loop variable of `for (size_t j : permutation)`: j = *it with it running over the whole argument
+    for i in f.walk():
+        if f.k(i) != "CXXForRangeStmt":
+            continue
+        n = f.nodes[i]
+        rng = n.get("rangeInit", -1)
+        lv = n.get("loopVarStmt", -1)
+        if rng < 0 or lv < 0 or f.k(lv) != "DeclStmt":
+            continue
+        rsrc = f.strip(rng)
+        if f.k(rsrc) == "DeclStmt":
+            rsrc = f.strip(f.nodes[rsrc]["decls"][0].get("init", -1))
+        if rsrc >= 0 and f.k(rsrc) == "DeclRefExpr" and f.nodes[rsrc]["decl"].get("id") == perm_param and f.nodes[rsrc]["decl"].get("kind") == "ParmVar":
+            d = f.nodes[lv]["decls"][0]
+            its = [x for x in f.walk(d.get("init", -1)) if f.k(x) == "DeclRefExpr" and f.nodes[x]["decl"].get("kind") == "Var"] if d.get("init", -1) >= 0 else []
+            if d.get("dk") == "Var" and its:
+                jdef[d["id"]] = f.nodes[its[0]]["decl"]["id"]
     li = set(g["il"] for g in gathers)
     ri = set(g["ir"] for g in gathers)
     for g in gathers:
